@@ -235,7 +235,7 @@ class C08(Check):
                  S.BATCHGATE(K), S.BATCH_DIRECT(K), S.GATE(K), S.GATE_NONE(K), S.GRPBATCH(K), S.GRP_BLOCKED(K),
                  S.FANFAIL(2), S.GRPIN(K), S.REGRADE(K), S.FANGATE(2), S.REENT(K), S.REENT(K, src_cycle=1), S.GRP2(K, horizon=hg),
                  S.NEST_MID(K, horizon=hg), S.NEST_OUT(K, horizon=hg), S.BLOCK(K), S.BATCH(K), S.REWIRE(K), S.REWIRE2(K + 1), S.GATEGRP(K),
-                 S.GRPPASS(K), S.NEST_PASS(K), S.FANTOGGLE(K), S.FANOUT(K + 1), S.BLOCK0(K), S.FANFLOW(K)]
+                 S.GRPPASS(K), S.NEST_PASS(K), S.FANTOGGLE(K), S.FANTOGGLE2(K), S.FANOUT(K + 1), S.BLOCK0(K), S.FANFLOW(K)]
         return _line_jobs(specs, ['route'], tier) + _line_jobs([S.NESTBATCH(K)], ['route', 'nesthistory'], tier) + topo_jobs(['route'], tier)
 
 
@@ -415,7 +415,9 @@ class C18(Check):
                S.SCHED_BLOCK(K - 1), S.SCHED_SAME(K),
                S.SCHED([(1, 'a'), (0.5, 'b')], True, [('o1', 'default')], K=K, inline=True, horizon=4),
                S.SCHED([(1, 'a'), (0.5, 'b'), (1, 'c')], False, [('o1', 'default')], K=K, inline=True, horizon=4),
-               S.FLOATNOISE(K - 1)]
+               S.FLOATNOISE(K - 1),
+               S.SCHED([(1, 'a'), (0.5, None), (1, 'b')], True, [('o1', 'default')], K=K, horizon=5),
+               S.SCHED([(0.5, None), (1, 'b')], False, [('o1', 'default')], K=K, horizon=3)]
         jobs += _line_jobs(sel, ['schedule'], tier)
         # a scheduler created while the line is running / between two runs follows its timetable from its creation on
         late = S.LATE(1, creates=[[6]], horizon=4, name='sched')
